@@ -100,6 +100,14 @@ Example C05_rows_nonvacuous :
   c_h2v2_plain_group 3 [[1]; [2]] = [[1; 1]; [1; 1]; [2; 2]; [2; 2]].
 Proof. exact rows_nonvacuous. Qed.
 
+(* h2v2 merged upsampling writes output row 0 before row 1, like the C code, so that aliased output rows
+   (jpeg_skip_scanlines: both = spare_row) end up with the same content *)
+Theorem C05_merged2_store_order_eq : forall alias data b,
+  asm_merged2_final merged_h2v2_call_rows_sse2 alias data b = c_merged2_final alias data b /\
+  asm_merged2_final merged_h2v2_call_rows_avx2 alias data b = c_merged2_final alias data b.
+Proof. exact merged2_store_order_eq. Qed.
+Print Assumptions C05_merged2_store_order_eq.
+
 (* (5) quantisation: for every divisor compute_reciprocal() accepts (return value 1) and every
    coefficient except INT16_MIN the pmulhuw sequence is the C quantize(); compute_reciprocal()
    returns 0 exactly for divisors 1 and 2, where jcdctmgr.c falls back to C *)
@@ -147,6 +155,13 @@ Theorem C05_fdct_ifast_full_refuted :
   List.length stripes = 64%nat /\ Forall (fun v => -128 <= v <= 127) stripes /\ asm_fdct_ifast stripes <> c_fdct_ifast stripes.
 Proof. exact fdct_ifast_full_refuted. Qed.
 Print Assumptions C05_fdct_ifast_full_refuted.
+
+(* the whole 8x8 fast FDCT: equal whenever the C computation keeps every multiply operand within 14 bits
+   (c_wraps14 = false), e.g. every block with constant rows (horizontal stripes of any contrast) *)
+Theorem C05_fdct_ifast_eq_partial : forall blk, List.length blk = 64%nat -> c_wraps14 blk = false ->
+  asm_fdct_ifast blk = c_fdct_ifast blk.
+Proof. exact fdct_ifast_eq_partial. Qed.
+Print Assumptions C05_fdct_ifast_eq_partial.
 
 (* non-vacuity *)
 Example C05_rgb_ycc_nonvacuous :
